@@ -415,7 +415,7 @@ func C15(c *Ctx) {
 	sum := func(b []byte) string { h := sha256.Sum256(b); return hex.EncodeToString(h[:])[:16] }
 	compared := 0
 	for _, r := range results {
-		c.Rep.Eval(1)
+		c.Rep.Count("configurations_run", 1)
 		if r.err != "" {
 			if strings.Contains(r.err, "left behind") {
 				c.Rep.Violate(verdict.Violation{Case: "cfg:" + r.cfg, Sig: "tmp-left-behind", What: r.err})
@@ -434,6 +434,7 @@ func C15(c *Ctx) {
 			}
 			got, ok := r.files[rel]
 			compared++
+			c.Rep.Eval(1)
 			c.Rep.Distinct(r.cfg + "/" + rel)
 			if !ok {
 				c.Rep.Violate(verdict.Violation{Case: "cfg:" + r.cfg + ":" + rel, Sig: "output-missing", What: fmt.Sprintf("configuration %s: no output for %s", r.cfg, rel)})
